@@ -39,6 +39,9 @@ def gen(tier, seed):
             "bare rate constants get exactly the units of their order in the reaction's units system (%s)" % us, "a: float, b: float, n: int, m: int", timeout=120)
         add("split_%s" % us, "c19-split", "split_ok(a, b, %r)" % us, ["pre: 0 <= a < 1e9 and 0 <= b < 1e9"], "split gives two irreversible reactions with the same constants (%s)" % us, "a: float, b: float")
         add("K_%s" % us, "c19-K", "K_ok(a, b, %r)" % us, ["pre: 1e-6 < a < 1e6 and 0 <= b < 1e6"], "equilibrium constant = kf/kr, None iff kr = 0 (%s)" % us, "a: float, b: float")
+    for form in (0, 1):
+        add("K_mixed_%d" % form, "c19-K", "K_mixed_ok(a, b, %d)" % form, ["pre: 1e-6 < a < 1e6 and 0 <= b < 1e6"],
+            "equilibrium constant when only %s is a per-environment dictionary (kr = 0 gives None)" % ("kr" if form == 0 else "kf"), "a: float, b: float")
     add("K_dict", "c19-K", "K_dict_ok(a, b, c)", ["pre: 1e-6 < a < 1e6 and 0 <= b < 1e6 and 0 <= c < 1e6"], "per-environment equilibrium constants", "a: float, b: float, c: float")
     for which in ("kf", "kr"):
         for n in ((0, 1, 2, 3) if tier == "quick" else range(0, 9)):
@@ -50,7 +53,7 @@ def gen(tier, seed):
         add("wrong_dims_env_%d" % n, "c19-wrong-dims-env", "wrong_dims_raise_env(%d, s, t, q, 'B', form)" % n,
             ["pre: %d <= s <= %d and -2 <= t <= 0 and %d <= q <= %d and 0 <= form <= 4 and (s, t, q) != (%d, -1, %d)" % (3 * n - 5, 3 * n - 1, -n, 2 - n, 3 * n - 3, 1 - n)],
             "per-environment constants (environment key, shared 'a,b' key, 'default', text) of a dimension other than that of order %d are rejected" % n, "s: int, t: int, q: int, form: int",
-            viol="a per-environment rate constant of the wrong dimension is accepted")
+            viol="a per-environment rate constant of the wrong dimension is accepted", timeout=300)
     add("right_dims", "c19-right-dims", "right_dims_kept(a, n, 'C', 'D')", ["pre: 1e-3 < a < 1e3 and 0 <= n <= 4"], "an explicit quantity of the right dimension keeps its physical value (magnitude realised by the setter's deepcopy: not exhaustive)", "a: float, n: int", timeout=20)
     for which in ("undeclared-substrate", "undeclared-product", "dup-species", "dup-reaction-label"):
         add("net_%s" % which.replace("-", "_"), "c19-network", "network_rejects(%r, pos)" % which, ["pre: 0 <= pos <= 2"], "a network refuses %s at any position" % which, "pos: int")
